@@ -141,7 +141,17 @@ func safeRun(e Engine, t *Tape, cfg map[string]string) (res Result) {
 			res = Result{Infra: fmt.Sprintf("panic in harness: %v\n%s", r, debug.Stack())}
 		}
 	}()
-	return e.Run(t, cfg)
+	if os.Getenv("VERIF_SLOWLOG") == "" {
+		return e.Run(t, cfg)
+	}
+	// debugging aid: report evaluations that take unusually long (stderr only)
+	t0 := time.Now()
+	res = e.Run(t, cfg)
+	if d := time.Since(t0); d > 8*time.Second {
+		b, _ := json.Marshal(res.Sample)
+		fmt.Fprintf(os.Stderr, "SLOW evaluation %v: %.600s counters=%v\n", d, string(b), res.Counters)
+	}
+	return res
 }
 
 // TB is the subset of testing.TB the runner needs.
